@@ -40,7 +40,9 @@ func genEnv() *gen.Env {
 	return &gen.Env{States: st}
 }
 
-var surrounds = [][2]string{{"", ""}, {"panic: boom\n\n", "exit status 2\n"}, {"", "\nPASS\n"}, {"some log line\r\npanic: x [recovered]\n\tpanic: y\n\n", ""}}
+var surrounds = [][2]string{{"", ""}, {"panic: boom\n\n", "exit status 2\n"}, {"", "\nPASS\n"}, {"some log line\r\npanic: x [recovered]\n\tpanic: y\n\n", ""},
+	// a dump that starts directly after a line which looks like the opening of a race report
+	{"==================\n", "exit status 2\n"}, {"log\n==================\nWARNING: DATA RACE\n", ""}}
 
 func errClass(err error) string {
 	switch {
